@@ -428,14 +428,29 @@ def check_C01(tier):
             key = ",".join(map(str, a))
             cases.append({"name": "%s@%s" % (n, key), "p": pidx[n], "args": [equiv.limbs(x) for x in a], "argv": [str(x) for x in a],
                           "native": {"ran": r["runs"][key]["ran"], "stdout": r["runs"][key]["stdout"], "status": r["runs"][key]["status"]}})
-    wd = os.path.join(work, "tlc")
-    os.makedirs(wd, exist_ok=True)
-    paths = {}
-    for nm, obj in (("progs", progs), ("cases", cases), ("cfg", {"maxsteps": T(tier, 8000, 30000)})):
-        paths[nm] = os.path.join(wd, nm + ".json")
-        json.dump(obj, open(paths[nm], "w"))
-    r = tlc_batch("Source", "Source.cfg", wd, {"SCCV_PROGS": paths["progs"], "SCCV_CASES": paths["cases"], "SCCV_CFG": paths["cfg"]},
-                  len(cases), timeout=T(tier, 900, 7000))
+    # TLC reads the programs as one constant: runs of at most 300 programs (cases re-indexed per run)
+    r = None
+    for ci in range(0, max(1, len(progs)), 300):
+        sub = progs[ci:ci + 300]
+        subcases = [dict(c, p=c["p"] - ci) for c in cases if ci < c["p"] <= ci + 300]
+        if not subcases:
+            continue
+        wd = os.path.join(work, "tlc%d" % (ci // 300))
+        os.makedirs(wd, exist_ok=True)
+        paths = {}
+        for nm, obj in (("progs", sub), ("cases", subcases), ("cfg", {"maxsteps": T(tier, 8000, 30000)})):
+            paths[nm] = os.path.join(wd, nm + ".json")
+            json.dump(obj, open(paths[nm], "w"))
+        rr = tlc_batch("Source", "Source.cfg", wd, {"SCCV_PROGS": paths["progs"], "SCCV_CASES": paths["cases"], "SCCV_CFG": paths["cfg"]},
+                       len(subcases), timeout=T(tier, 900, 7000))
+        if r is None:
+            r = rr
+        else:
+            r["results"] += rr["results"]
+            for k_ in ("states", "distinct", "wall"):
+                r[k_] = (r[k_] or 0) + (rr[k_] or 0)
+    if r is None:
+        raise ToolError("no program reached the native stage")
     byname = {x["case"]: x for x in r["results"]}
     natof = {c["name"]: c["native"] for c in cases}
     samples = []
@@ -790,10 +805,9 @@ def check_C17(tier):
             traces.append({"name": "process%d-upto-history-%s" % (pi, cur), "kind": "history", "events": chunk, "facts": {"nargs": 0, "maxctx": 0, "hasprint": False}})
     wd = os.path.join(work, "trace")
     os.makedirs(wd, exist_ok=True)
-    tp, cp = os.path.join(wd, "traces.json"), os.path.join(wd, "cfg.json")
-    json.dump(traces, open(tp, "w"))
+    cp = os.path.join(wd, "cfg.json")
     json.dump({"reference": ref or {"none|none": ""}}, open(cp, "w"))
-    r2 = tlc_batch("TracePipeline", "TracePipeline.cfg", wd, {"SCCV_CASES": tp, "SCCV_CFG": cp}, len(traces), timeout=3000)
+    r2 = tlc_batch_chunked("TracePipeline", "TracePipeline.cfg", wd, traces, envkey="SCCV_CASES", extra_env={"SCCV_CFG": cp}, timeout=3000)
     viols, stats = [], collections.Counter()
     for x in r2["results"]:
         stats[x["status"]] += 1
@@ -1452,9 +1466,7 @@ def check_C15(tier):
         cases.append({"name": nm, "prog": parsed_index(json.load(open(os.path.join(art, nm + ".parsed.json")))), "label": label[nm], "impl": impl})
     wd = os.path.join(work, "tlc")
     os.makedirs(wd, exist_ok=True)
-    cp = os.path.join(wd, "cases.json")
-    json.dump(cases, open(cp, "w"))
-    r = tlc_batch("TypeCheck", "TypeCheck.cfg", wd, {"SCCV_CASES": cp}, len(cases), timeout=T(tier, 1500, 7000), xmx="12g")
+    r = tlc_batch_chunked("TypeCheck", "TypeCheck.cfg", wd, cases, envkey="SCCV_CASES", timeout=T(tier, 1500, 7000), xmx="12g")
     viols = []
     percls = collections.Counter()
     for x in r["results"]:
@@ -1579,10 +1591,10 @@ def check_C16(tier):
     runs = [x for x in runs if not (x["parse"] != "ok" and x["name"].startswith(("repo_", "cli_")) and "fail_check" in srcof.get(x["name"], ""))]
     tdir = os.path.join(work, "tlc")
     os.makedirs(tdir, exist_ok=True)
-    cp = os.path.join(tdir, "runs.json")
-    json.dump([{"name": x["name"], "parse": x["parse"] if x["parse"] == "ok" else x["parse"][:150],
-                "records": [{k2: v for k2, v in rr.items() if k2 != "text"} for rr in x["records"]]} for x in runs], open(cp, "w"))
-    r2 = tlc_batch("TraceFmt", "TraceFmt.cfg", tdir, {"SCCV_CASES": cp}, len(runs), timeout=3000)
+    r2 = tlc_batch_chunked("TraceFmt", "TraceFmt.cfg", tdir,
+                           [{"name": x["name"], "parse": x["parse"] if x["parse"] == "ok" else x["parse"][:150],
+                             "records": [{k2: v for k2, v in rr.items() if k2 != "text"} for rr in x["records"]]} for x in runs],
+                           envkey="SCCV_CASES", timeout=3000)
     viols, stats = [], collections.Counter()
     textof = {x["name"]: next((rr["text"] for rr in x["records"] if rr.get("text")), "") for x in runs}
     for x in r2["results"]:
